@@ -264,6 +264,11 @@ func Run(t *testing.T, codecs []*Codec) {
 	if thorough {
 		nValid, nRand = 120, 1500
 	}
+	if rp := os.Getenv("VERIF_C18_REPLAY"); rp != "" {
+		replay(out, codecs, rp)
+
+		return
+	}
 	for ci, c := range codecs {
 		rnd := NewRand(Seed()*1000003 + uint64(c.ID)*7919 + uint64(ci))
 		emitCorpus := func(kind string, in []byte) {
@@ -390,4 +395,41 @@ func positions(r *Rand, n, limit int, thorough bool) []int {
 	}
 
 	return out
+}
+
+// replay re-runs one recorded input (bin/check C18 --replay): VERIF_C18_REPLAY is the JSON
+// {"id":..,"ctx":[..],"in":hex,"kind":..,"parent":hex}; the parent (the valid encoding a
+// truncation / trailing-garbage case was derived from) is observed first.
+func replay(out *Out, codecs []*Codec, spec string) {
+	var rp struct {
+		ID     int    `json:"id"`
+		Ctx    []int  `json:"ctx"`
+		In     string `json:"in"`
+		Kind   string `json:"kind"`
+		Parent string `json:"parent"`
+	}
+	if err := json.Unmarshal([]byte(spec), &rp); err != nil {
+		panic(err)
+	}
+	for _, c := range codecs {
+		if c.ID != rp.ID || fmt.Sprint(c.Ctx) != fmt.Sprint(rp.Ctx) && !(len(c.Ctx) == 0 && len(rp.Ctx) == 0) {
+			continue
+		}
+		if rp.Parent != "" {
+			if p, err := hex.DecodeString(rp.Parent); err == nil {
+				out.Emit(observe(c, "cvalid", p))
+			}
+		}
+		in, err := hex.DecodeString(rp.In)
+		if err != nil {
+			panic(err)
+		}
+		kind := rp.Kind
+		if kind == "valid" { // the generated value is gone; what remains checkable is "accepted"
+			kind = "cvalid"
+		}
+		cs := observe(c, kind, in)
+		cs.Parent = rp.Parent
+		out.Emit(cs)
+	}
 }
